@@ -37,6 +37,9 @@ func (c *CacheConfig) setRestartNeededProps() {
 	c.LockShards.SetRequiresRestart()
 }
 
+// Upper bound for cache.lock_shards (each shard is one lock, allocated when the cache starts).
+const maxLockShards = 1 << 20
+
 func (c *CacheConfig) verify() error {
 	if c.MaxCacheSize.Read().Bytes() <= 0 {
 		return fmt.Errorf("cache.max_cache_size must be greater than 0")
@@ -49,6 +52,10 @@ func (c *CacheConfig) verify() error {
 	}
 	if c.LockShards.Read() < 1 {
 		return fmt.Errorf("cache.lock_shards must be at least 1")
+	}
+	if c.LockShards.Read() > maxLockShards {
+		// The lock table is allocated up front: a count like 1e12 makes the next start run out of memory.
+		return fmt.Errorf("cache.lock_shards must be at most %d", maxLockShards)
 	}
 	if c.File.Dir.Read() == "" {
 		return fmt.Errorf("cache.file.dir cannot be empty")
